@@ -19,7 +19,7 @@ const rule = "binary only. (formats) documents whose keys and scalar leaves are 
 	"(failures) cases built to fail at a known stage - expression parse error, evaluation error on document k of n, malformed input at document k, missing file, encode error - must exit != 0 with a non-empty stderr. " +
 	"(exit_status) -e exits 1 exactly when there is no result or every result is null or false. (null_input) -n never reads stdin (file offset stays 0, output independent of stdin). " +
 	"(autodetect) with no -p/-o the first file's extension selects both formats (yaml for unknown ones), case-insensitively. " +
-	"non-trivial = the case includes a failure at some stage, a format that cannot represent the result, or a flag other than -o; distinct by (args, inputs)"
+	"non-trivial = the case includes a failure at some stage, a format that cannot represent the result, or a flag other than -o; distinct by (args, inputs) Sub cmd_vs_lib: (expression, input, -p, -o, mode, 0-3 flags) through the binary and through the library configured as each flag is documented; exit status and stdout must agree. Sub split: --split-exp with several results per document, several documents and files, eval-all; every result complete in its own file. Sub autodetect also runs an explicit -o next to the detected input format and compares the names of one format with each other."
 
 func TestMain(m *testing.M) {
 	hx.Main(m, "C19", rule,
@@ -645,6 +645,7 @@ func TestProp(t *testing.T) {
 		hx.NewSub("exit_status", 300, 3000, genE, checkE),
 		hx.NewSub("multifile", 250, 2500, genMF, checkMF),
 		hx.NewSub("split", 150, 1500, genSplit, checkSplit),
+		hx.NewSub("cmd_vs_lib", 600, 6000, genCL, checkCL),
 		hx.NewSub("null_input", 60, 600, func(t *rapid.T) NCase {
 			return NCase{Expr: rapid.SampledFrom([]string{"1", "{\"a\": 1}", "\"x\"", ".", ".a = 1", "[1,2] | .[]", "null", ".a.b = \"c\""}).Draw(t, "expr"),
 				Stdin: rapid.SampledFrom([]string{"a: 1\n", "", "x: [1,2]\n---\ny: 2\n", "not yaml: [\n", strings.Repeat("k: v\n", 5000)}).Draw(t, "stdin"),
